@@ -2,7 +2,7 @@
 (* C06 on the interchain token: minter changes, owner minting and ownership        *)
 (* transfer need the current owner; every principal as sole authoriser, over role     *)
 (* transfer histories (the former owner keeps nothing).                               *)
-EXTENDS Token, Json, SequencesExt
+EXTENDS Token, Json, SequencesExt, AuthShapes
 VARIABLE st
 Auths == {{p} : p \in Accts} \cup {{}}
 Acts(s) ==
@@ -10,11 +10,18 @@ Acts(s) ==
     \cup {[name |-> "Mint", to |-> "bob", amt |-> 1, auth |-> au] : au \in Auths}
     \cup {[name |-> "AddMinter", minter |-> "carol", auth |-> {s.owner}]}
     \cup {[name |-> "TransferOwnership", new |-> n, auth |-> au] : n \in {"its0", "carol", "bob"}, au \in Auths}
+    \* the migration window of the Upgradable interface is open (hidden from this module): every role check must
+    \* behave exactly as when it is closed
+    \cup {[name |-> "HookOpenWindow"]}
+    \* an entry that names the entry point but keeps only the arguments `keepArgs` (what require_auth_for_args with a subset of the
+    \* arguments would ask for) is not an authorisation of this exact call
+    \cup {[name |-> n, minter |-> "bob", auth |-> {}, scopedAuth |-> {s.owner}, keepArgs |-> <<>>] : n \in {"AddMinter", "RemoveMinter"}}
+    \cup {[name |-> "TransferOwnership", new |-> "bob", auth |-> {}, scopedAuth |-> {s.owner}, keepArgs |-> <<>>]}
 Within(s) == s.bal["bob"] <= 2
 Init == st = Blank("its0", "its0", 1)
 EnabledActs(s) == {a \in Acts(s) : Within(Apply(s, a).post)}
 Next == \E a \in EnabledActs(st) : st' = Apply(st, a).post
-Step(P(_, _, _)) == \A a \in EnabledActs(st) : P(st, a, Apply(st, a))
+Step(P(_, _, _)) == \A a \in EnabledActs(st) : a.name # "HookOpenWindow" => P(st, a, Apply(st, a))
 OnlyHolder(s, a, r) == r.ok => s.owner \in a.auth
 Successor(s, a, r) == r.post.owner = IF a.name = "TransferOwnership" /\ r.ok THEN a.new ELSE s.owner
 Frame(s, a, r) == ~r.ok => r.post = s /\ r.ev = <<>>
